@@ -80,8 +80,9 @@ def runOp (s : St) (op : Op) (res : AuthRes) (impl : String) : St × DrvOut :=
   let (s', out) := step auth s op
   let spec := match parseOut s.confs impl with
     | some o => (match specOp auth s op o with | none => "ok" | some m => "FAIL " ++ m)
-    | none => if impl.startsWith "other" then "ok" else "FAIL unparsable implementation answer: " ++ impl
-  (s', { model := outStr out, spec := spec })
+    | none => if impl.startsWith "other" || impl.startsWith "oracle-mismatch" then "ok"
+              else "FAIL unparsable implementation answer: " ++ impl
+  (s', { model := if impl.startsWith "oracle-mismatch" then "-" else outStr out, spec := spec })
 
 /-- `k:namehex:pub:skip:adm:granted:conf` -/
 def parseEv (t : String) : Option Ev :=
